@@ -377,7 +377,9 @@ func nickRun(e *Env) {
 						}
 					}
 					if !dup {
-						l.SendLine(":" + others[k] + "!o@h NICK " + neu)
+						// (another user may well share the client's user@host: a second
+						// bot on the same machine, users behind one gateway)
+						l.SendLine(":" + others[k] + "!" + []string{"o@h", "ident@host.sim"}[g.S.Choose(2)] + " NICK " + neu)
 						others[k] = neu
 					}
 				}
@@ -629,7 +631,17 @@ func regRun(e *Env) {
 	} else {
 		cfg.Proxy = "sim://p"
 	}
+	// the configuration may still be changed through Config() after the client
+	// has been created: SSL is sometimes only decided then
+	lateSSL := g.Pct(20)
+	if lateSSL {
+		cfg.SSL = !ssl
+		e.S.Count("probe.ssl-decided-after-client-creation")
+	}
 	c := client.Client(cfg)
+	if lateSSL {
+		c.Config().SSL = ssl
+	}
 	if track {
 		c.EnableStateTracking()
 	}
@@ -1408,6 +1420,7 @@ func logRun(e *Env) {
 	cfg := client.NewConfig("me", "ident", "name")
 	cfg.Pass = pw
 	cfg.EnableCapabilityNegotiation = capNeg
+	scrub := g.W(7, 2, 1) // 0 no, 1 the application wipes Config().Pass once REGISTER has run, 2 it replaces it
 	if g.Pct(25) {
 		// a server password and a SASL account at the same time (a bouncer)
 		cfg.Sasl = sasl.NewPlainClient("", "account", "sasl-secret")
@@ -1475,6 +1488,19 @@ func logRun(e *Env) {
 			e.Violation("harness", "dial failure did not fail Connect")
 			return
 		}
+	}
+	if scrub != 0 {
+		// the password is handed to the library at Connect; an application may
+		// clear or change the field as soon as the REGISTER event has fired,
+		// while the PASS line is still queued or being written
+		e.S.Count("probe.config-pass-changed-while-pass-in-flight")
+		c.HandleFunc(client.REGISTER, func(c *client.Conn, l *client.Line) {
+			if scrub == 1 {
+				c.Config().Pass = ""
+			} else {
+				c.Config().Pass = "another-password"
+			}
+		})
 	}
 	err := c.Connect()
 	// several sessions in quick succession, with traffic: the flood penalty
